@@ -469,6 +469,42 @@ def run(tier: str, budget: Budget, rnd, arg) -> StreamResult:
             gg = GCG(np.array([[float(x) for x in row] for row in M], dtype=float))
             before = [frac(x) for x in gg.get_values()]
             script.add(f"norm gtable {n} {rlist(flat)}", f"V={rlist(before)}", {"n": n, "matrix": [rs(x) for x in flat]})
+            # ---- the graph representation is a game like the tabulated one: value = sum of the weights inside the coalition,
+            # single / bulk getters agree, copy is independent, negation negates, sum adds, == compares values (oracle on the
+            # real code; exact: integer / dyadic weights)
+            gctx = {"n": n, "matrix": [rs(x) for x in flat], "kind": kind}
+            want = [sum((M[i][j] for i in range(n) for j in range(i + 1, n) if c >> i & 1 and c >> j & 1), Fraction(0))
+                    for c in range(2 ** n)]
+            try:
+                one = [frac(gg.get_value(Coalition(c))) for c in range(2 ** n)]
+                some_ids = [rnd.randrange(2 ** n) for _ in range(3)]
+                some = [frac(x) for x in gg.get_values([Coalition(c) for c in some_ids])]
+                cp = gg.copy()
+                ng = -gg
+                kind2, M2 = exact_matrix(n, rnd)
+                g2 = GCG(np.array([[float(x) for x in row] for row in M2], dtype=float))
+                v2 = [frac(x) for x in g2.get_values()]
+                sm = gg + g2
+                facts = {
+                    "value = sum of the weights of the pairs inside the coalition": before == want and one == want
+                    and some == [want[c] for c in some_ids],
+                    "copy has the same values and compares equal": [frac(x) for x in cp.get_values()] == before and (cp == gg) is True,
+                    "negation negates every value and is an involution": [frac(x) for x in ng.get_values()] == [-x for x in before]
+                    and [frac(x) for x in (-ng).get_values()] == before,
+                    "sum adds the values": [frac(x) for x in sm.get_values()] == [a + b for a, b in zip(before, v2)],
+                    "== between graph games is equality of values": (gg == g2) == (before == v2) and (gg == gg) is True,
+                    "== with the tabulated form": (gg == table_game(n, before)) is True
+                    and (gg == table_game(n, [x + (1 if i_ == 2 ** n - 1 else 0) for i_, x in enumerate(before)])) is False,
+                }
+                cp._graph_matrix[0, n - 1] += 1.0
+                facts["copy is independent of the original"] = [frac(x) for x in gg.get_values()] == before
+                for what_, ok_ in facts.items():
+                    if not ok_:
+                        res.violation(f"graph game: {what_} — fails", dict(gctx, other_matrix=[[rs(x) for x in row] for row in M2]),
+                                      key="graph:" + what_.split(" ")[0])
+                res.count("graph:algebra")
+            except Exception as ex:      # noqa: BLE001
+                res.violation(f"graph game: a basic operation raised {type(ex).__name__}: {ex}", gctx, key="graph:raised")
             info = NZ.normalize_game(gg)
             ans = (f"I={rs(info[0])} S={rlist(info[1])} M={rlist(gg._graph_matrix.flatten())} "
                    f"V={rlist(gg.get_values())}")
